@@ -47,9 +47,11 @@ package coreutils
 //@ extern (consensus.State).SufficientlyHeavierThan pure
 //@ extern consensus.ApplyBlock pure
 //@   ensures result0.Index.ID == b.ID()
+//@   ensures oneDiffPerIDApply(result1)
 //@   ensures b.ParentID != types.BlockID{} ==> result0.Index.Height == s.Index.Height + 1
 //@   ensures b.ParentID == types.BlockID{} ==> result0.Index.Height == 0
 //@ extern consensus.RevertBlock pure
+//@   ensures oneDiffPerIDRevert(result)
 //@ extern consensus.ValidateBlock
 //@   assigns nothing
 //@ extern (*types.Block).V2Transactions
